@@ -341,6 +341,10 @@ func (g *gen) next() (string, M) {
 		a := M{"client": c, "uri": g.uriOf(c), "rtype": rtype, "rmode": g.pick("", "", "query", "fragment", "form_post"),
 			"scopes": g.scopes(), "chall": chall,
 			"state": g.pick("st1", "s t+2/=&%", "<\"'>", ""), "nonce": g.pick("n1", "n2", "")}
+		if len(d.idtRaw) > 0 && g.rng.Intn(5) == 0 {
+			// a returning user: the request carries an earlier ID token as hint (the storage is told its subject when the request is created)
+			a["hint"] = M{"kind": g.pick("valid", "expired"), "id": g.existing(d.idtRaw, "i99")}
+		}
 		if g.focus == "authorize" {
 			// other defects of the request, raised before or after the redirect-URI validation
 			switch g.rng.Intn(8) {
